@@ -33,6 +33,22 @@ Theorem C15_earlier_items_kept : forall s c numid ilvl d, InvN s -> level_def s 
 Proof. exact earlier_items_kept. Qed.
 Print Assumptions C15_earlier_items_kept.
 
+(* restarting the numbering of a list (RestartNumbering): the invariant is kept, every definition handed out before
+   stays what it was - also when the list named does not exist -, and the new numbering id of an existing list means
+   at every level what the old one means *)
+Theorem C15_restart_inv : forall s numid, InvN s -> InvN (restart s numid).
+Proof. exact restart_inv. Qed.
+Print Assumptions C15_restart_inv.
+
+Theorem C15_restart_keeps : forall s numid n ilvl d, level_def s n ilvl = Some d -> level_def (restart s numid) n ilvl = Some d.
+Proof. exact restart_keeps. Qed.
+Print Assumptions C15_restart_keeps.
+
+Theorem C15_restart_same_definition : forall s numid ilvl, InvN s -> find_inst numid (instances s) <> None ->
+  level_def (restart s numid) (next_num s) ilvl = level_def s numid ilvl.
+Proof. exact restart_same_definition. Qed.
+Print Assumptions C15_restart_same_definition.
+
 (* (b) notes: every added note is there exactly once under a fresh id; removal removes exactly
    that note, and fails without changing anything when the id is not a live note *)
 Theorem C15_add_note_spec : forall s t, InvNotes s ->
